@@ -83,25 +83,25 @@ def toks(l):
 # ---------------------------------------------------------------------------
 # Adapter to the real code
 # ---------------------------------------------------------------------------
-def tok(v, ch):
+def tok(v, ch, frac=0.0):
     if v != v:
         return 'N'
     if v == PADI:
         return 'I'
     if v == PADF:
         return 'F'
-    p = v - ch * CH
+    p = v - ch * CH - frac
     if p == int(p) and 0 <= p < CH:
         return str(int(p))
     return f'?{v!r}'
 
 
-def tokens(arr, nch):
+def tokens(arr, nch, frac=0.0):
     a = np.asarray(arr)
     if a.ndim != (2 if nch else 1) or (nch and a.shape[0] != nch):
         return f'SHAPE{a.shape}'
     rows = list(a) if nch else [a]
-    cols = [[tok(v, ch) for v in row.tolist()] for ch, row in enumerate(rows)]
+    cols = [[tok(v, ch, frac) for v in row.tolist()] for ch, row in enumerate(rows)]
     for ch, c in enumerate(cols[1:], 1):
         if c != cols[0]:
             return f'CHANNELS-DIFFER(0:{toks(cols[0])};{ch}:{toks(c)})'
@@ -115,17 +115,23 @@ class Impl:
         self.nch = case['nch']
         cap = case['cap']
         size = cap / fs if (case.get('exact') and fs in POW2) else (cap - 0.5) / fs
-        self.b = SignalBuffer(fs=fs, size=size, fill_value=PADI, n_channels=self.nch or None)
+        # 'numrepr': the samples are non-integers (k + 0.25) and the fill values are written as Python ints
+        # (the same numbers -1 / -2): the buffer is a float buffer whatever the type of the fill value
+        self.frac = 0.25 if case.get('numrepr') else 0.0
+        ifill = int(PADI) if case.get('numrepr') else PADI
+        self.b = SignalBuffer(fs=fs, size=size, fill_value=ifill, n_channels=self.nch or None)
         self.next = 0
         # fill value of the filled reads: normally distinct from the constructor's, in `samefill` cases equal to it
         self.padf = PADI if case.get('samefill') else PADF
+        if case.get('numrepr'):
+            self.padf = int(self.padf)
 
     def bounds(self):
         return f'{int(self.b.get_samples_lb())} {int(self.b.get_samples_ub())}'
 
     def rd(self, f, *a, **k):
         try:
-            return tokens(f(*a, **k), self.nch)
+            return tokens(f(*a, **k), self.nch, self.frac)
         except Exception as e:
             return type(e).__name__
 
@@ -133,7 +139,7 @@ class Impl:
         b, fs, name = self.b, self.fs, op[0]
         if name == 'append':
             n = op[1]
-            pos = np.arange(self.next, self.next + n, dtype=np.double)
+            pos = np.arange(self.next, self.next + n, dtype=np.double) + self.frac
             data = np.vstack([pos + ch * CH for ch in range(self.nch)]) if self.nch else pos
             b.append_data(data)
             self.next += n
@@ -152,20 +158,20 @@ class Impl:
         if name == 'boundst':
             return f'ok {round(b.get_time_lb() * fs)} {round(b.get_time_ub() * fs)}'
         if name == 'read':
-            return 'ok ' + tokens(b.get_range_samples(op[1], op[2]), self.nch)
+            return 'ok ' + tokens(b.get_range_samples(op[1], op[2]), self.nch, self.frac)
         if name == 'readt':
-            return 'ok ' + tokens(b.get_range((op[1] + op[3]) / fs, (op[2] + op[4]) / fs), self.nch)
+            return 'ok ' + tokens(b.get_range((op[1] + op[3]) / fs, (op[2] + op[4]) / fs), self.nch, self.frac)
         if name == 'window':
-            return 'ok ' + tokens(b.get_range_samples(), self.nch)
+            return 'ok ' + tokens(b.get_range_samples(), self.nch, self.frac)
         if name == 'windowt':
-            return 'ok ' + tokens(b.get_range(), self.nch)
+            return 'ok ' + tokens(b.get_range(), self.nch, self.frac)
         if name == 'filled':
             dl, du = (op[3], op[4]) if len(op) > 3 else (0.0, 0.0)
-            return 'ok ' + tokens(b.get_range_filled((op[1] + dl) / fs, (op[2] + du) / fs, self.padf), self.nch)
+            return 'ok ' + tokens(b.get_range_filled((op[1] + dl) / fs, (op[2] + du) / fs, self.padf), self.nch, self.frac)
         if name == 'latest':
-            return 'ok ' + tokens(b.get_latest(op[1] / fs, op[2] / fs), self.nch)
+            return 'ok ' + tokens(b.get_latest(op[1] / fs, op[2] / fs), self.nch, self.frac)
         if name == 'latestf':
-            return 'ok ' + tokens(b.get_latest(op[1] / fs, op[2] / fs, fill_value=self.padf), self.nch)
+            return 'ok ' + tokens(b.get_latest(op[1] / fs, op[2] / fs, fill_value=self.padf), self.nch, self.frac)
         if name == 'probe':
             lb, ub = int(b.get_samples_lb()), int(b.get_samples_ub())
             parts = [f'P {lb} {ub}',
@@ -247,7 +253,7 @@ class C14(Spec):
         def rec(ops, d):
             count[0] += 1
             yield {'kind': 'exh', 'cap': cap, 'nch': 2 if count[0] % 4 == 0 else 0, 'fs': 1.0, 'exact': True,
-                   'ops': ops + [['probe']], 'samefill': count[0] % 3 == 0}
+                   'ops': ops + [['probe']], 'samefill': count[0] % 3 == 0, 'numrepr': count[0] % 5 == 0}
             if d == 0:
                 return
             ref = Ref(cap)
@@ -314,7 +320,7 @@ class C14(Spec):
         ops.append(['probe'])
         return {'kind': 'float' if floats and kind == 'rand' else kind, 'cap': cap,
                 'nch': rng.choice([0, 0, 2, 3]), 'fs': fs, 'exact': rng.random() < 0.5, 'ops': ops,
-                'samefill': rng.random() < 0.3}
+                'samefill': rng.random() < 0.3, 'numrepr': rng.random() < 0.3}
 
     def boundary_cases(self, rng):
         """From one random reachable state: sweeps at every offset -2..+2 around both bounds."""
